@@ -296,6 +296,17 @@ def r3_attribution(ctx):
     fd = [v for s_, v in local_defs(so, "func") if v is not None]
     ok = ok and len(fd) == 1 and norm(fd[0]) == "save_methods[out_format]"
     ctx.check(ok, so.qual, "value read under valid_name is written under a name derived from valid_name with the run's number and format" if ok else "Outputs.save_to_file can write a bucket under another bucket's / run's name", where=so, node=so.node)
+    # the report of ONE bucket holds that bucket's files only: the per-bucket mapping stored under the bucket's
+    # name is created afresh inside the loop over the requested buckets (a mapping shared by all buckets lets a
+    # later bucket overwrite an earlier bucket's entry of the same format, and each reports the others' formats)
+    for st_, t_ in stores(so.node, lambda t: isinstance(t, ast.Subscript) and dotted(t.value) == "all_filenames"):
+        lp_ = enclosing_loop(st_)
+        v_ = getattr(st_, "value", None)
+        okf = isinstance(lp_, ast.For) and v_ is not None
+        if okf and isinstance(v_, ast.Name):
+            dfs = [d_ for d_, _ in local_defs(so, v_.id)]
+            okf = bool(dfs) and all(contains(lp_, d_) for d_ in dfs)
+        ctx.check(okf, so.qual + "#report-per-bucket", "each bucket's report is a mapping created for that bucket" if okf else f"`{norm(st_)[:60]}` stores a mapping created outside the loop over the buckets: all buckets share it (entries of the same format overwrite each other, every bucket reports the other buckets' formats)", where=so, node=st_)
 
 
 def r4_completeness_and_tables(ctx):
